@@ -40,8 +40,8 @@ ASSUMPTIONS = [
 ]
 PARTIAL = []
 MANIFEST = dict(
-    text='Proof: 30 Lean theorems, each for every rank/extent/argument: reshape (accepted shape, one inferred -1 at any position, C order kept, in bounds), flatten, transpose (NumPy shape and element equations for every permutation incl. negative spellings and the default; transpose then inverse = identity), swapaxes and moveaxis (the mirrored argsort/insertion loop yields NumPy\'s axis order for any duplicate-free source/destination lists), expand_dims (any duplicate-free axis tuple), squeeze, atleast_nd, flip (element equations on non-negative axes, flip twice = identity), and for every op: result is a permutation of the source elements (identity permutation for the reshape family). Tied to the headers by an exhaustive small-scope differential run comparing shape AND every element of the lazy view and of the eager array:: function, also against real NumPy.',
-    note='Lean kernel + propext/Classical.choice/Quot.sound; model hand-written, fidelity rests on the correspondence run; flip is modelled directly (i -> n-1-i), not through the slice machinery; results of rank 0 (reshape to (), squeeze of all-ones, ...) and negative flip axes violate the property on the unchanged tree and are listed as known findings with Lean counterexample theorems; only dynamic (std::vector) shape/axes kinds are run here.',
+    text='Proof: 27 Lean theorems, each for every rank/extent/argument: reshape (accepted shape, one inferred -1 at any position, C order kept, in bounds), flatten, transpose (NumPy shape and element equations for every permutation incl. negative spellings and the default; transpose then inverse = identity), swapaxes and moveaxis (the mirrored argsort/insertion loop yields NumPy\'s axis order for any duplicate-free source/destination lists), expand_dims (any duplicate-free axis tuple), squeeze, atleast_nd, flip (element equations for any valid axis list incl. negative entries, flip twice = identity), and for every op: result is a permutation of the source elements (identity permutation for the reshape family). Tied to the headers by an exhaustive small-scope differential run comparing shape AND every element of the lazy view and of the eager array:: function, also against real NumPy.',
+    note='Lean kernel + propext/Classical.choice/Quot.sound; model hand-written, fidelity rests on the correspondence run; flip is modelled directly (i -> n-1-i), not through the slice machinery; results of rank 0 (reshape to (), squeeze of all-ones, ...) and negative flip axes were defects of the original tree, repaired by fixes/C03-reshape-rank0.diff and fixes/C03-flip-negative-axis.diff; model and theorems follow the repaired code; only dynamic (std::vector) shape/axes kinds are run here.',
     technique='Lean 4 induction proofs over List Nat shapes + differential correspondence (exhaustive small scope) + NumPy oracle')
 
 
@@ -114,7 +114,7 @@ def req_line(op, s, **kw):
 
 
 # ------------------------------------------------------------------------------------------------
-# known findings: input classes (decided from the request only)
+# known findings: none (reshape.rank0-result and flip.negative-axis were repaired by fixes/C03-*.diff)
 # ------------------------------------------------------------------------------------------------
 
 def parse_req(req):
@@ -132,7 +132,7 @@ def _ints(v):
 
 def result_is_rank0(case):
     """the NumPy result has rank 0 (shape ()): reshape to (), squeeze of an all-ones (or rank-0) shape,
-    atleast_nd(rank-0, 0), expand_dims(rank-0, ()). All of them end in shape_reshape(src, {})."""
+    atleast_nd(rank-0, 0), expand_dims(rank-0, ()) — only used to tag the input distribution"""
     d = parse_req(case.req)
     s = _ints(d.get('shape', '[]'))
     if d['op'] == 'reshape':
@@ -146,18 +146,7 @@ def result_is_rank0(case):
     return False
 
 
-def flip_negative_axis(case):
-    """flip / flip2 with a negative entry among the axes"""
-    d = parse_req(case.req)
-    if d['op'] not in ('flip', 'flip2'):
-        return False
-    for k in ('axis', 'axis2'):
-        if k in d and d[k] != 'None' and any(x < 0 for x in _ints(d[k])):
-            return True
-    return False
-
-
-KNOWN_PREDICATES = {'result_is_rank0': result_is_rank0, 'flip_negative_axis': flip_negative_axis}
+KNOWN_PREDICATES = {}
 
 
 # ------------------------------------------------------------------------------------------------
@@ -208,11 +197,9 @@ class Gen:
         c = Case(line, 'h_c03', oracle=exp, tags=[op, 'rank=%d' % len(s)])
         src = show(src_array(s))
         c.nontrivial = (exp != src)
-        known = result_is_rank0(c) or flip_negative_axis(c)
-        c.dom = not known
         tags = list(c.tags)
-        if known:
-            tags.append('known-defect-class')
+        if result_is_rank0(c):
+            tags.append('rank0-result')
         if exp == 'nothing':
             tags.append('numpy-rejects')
         for k in ('axes', 'axis', 'src', 'dst', 'axis2', 'axes2'):
@@ -354,7 +341,7 @@ class Gen:
 
 
 def witnesses():
-    """witness inputs of the known findings: replayed on every run"""
+    """the inputs on which the two repaired defects showed (regression cases, run first)"""
     return [('reshape', [1, 1], dict(to=[])), ('squeeze', [1, 1], {}), ('flip', [2, 3], dict(axis=[-1], kind='int'))]
 
 
